@@ -1,6 +1,7 @@
 package main
 
 import (
+	"encoding/json"
 	"fmt"
 	"math/rand"
 	"sort"
@@ -71,7 +72,7 @@ func (managerSuite) Gen(r *rand.Rand, i int) Case {
 		case x < 7:
 			c.Ops = append(c.Ops, "get "+name)
 		case x < 8:
-			c.Ops = append(c.Ops, "all")
+			c.Ops = append(c.Ops, pick(r, "all", "var"))
 		default:
 			c.Ops = append(c.Ops, "stats "+name)
 		}
@@ -177,6 +178,26 @@ func (managerSuite) Run(h map[string]string, ops []string) []string {
 				var l []int
 				for _, c := range m.AllCircuits() {
 					if id, ok := ids[c]; ok {
+						l = append(l, id)
+					} else {
+						l = append(l, -1)
+					}
+				}
+				sort.Ints(l)
+				parts := make([]string, len(l))
+				for i, v := range l {
+					parts[i] = strconv.Itoa(v)
+				}
+				return "[" + strings.Join(parts, ",") + "]"
+			case "var":
+				// the expvar view of the manager lists exactly the registered circuits (secondary observer of `all`)
+				var keys map[string]interface{}
+				if err := json.Unmarshal([]byte(m.Var().String()), &keys); err != nil {
+					return "bad-json"
+				}
+				var l []int
+				for name := range keys {
+					if id, ok := ids[m.GetCircuit(name)]; ok {
 						l = append(l, id)
 					} else {
 						l = append(l, -1)
